@@ -8,6 +8,7 @@ at the deepest werkzeug frame.
 from __future__ import annotations
 
 import io
+import os
 import traceback
 
 from ..models import hostile
@@ -156,6 +157,7 @@ def direct_targets(W):
         ("parse_accept_header[Accept]", accept_use(DS.Accept, ["gzip", "identity", "x"]), lambda v: isinstance(v, DS.Accept)),
         ("parse_accept_header[MIMEAccept]", accept_use(DS.MIMEAccept, ["text/html", "application/json", "text/plain"]), lambda v: isinstance(v, DS.MIMEAccept)),
         ("parse_accept_header[LanguageAccept]", accept_use(DS.LanguageAccept, ["en", "en-US", "de"]), lambda v: isinstance(v, DS.LanguageAccept)),
+        ("parse_accept_header[LanguageAccept/regional-offers]", accept_use(DS.LanguageAccept, ["en-US", "de", "fil-PH"]), lambda v: isinstance(v, DS.LanguageAccept)),
         ("parse_accept_header[CharsetAccept]", accept_use(DS.CharsetAccept, ["utf-8", "latin-1", "ascii"]), lambda v: isinstance(v, DS.CharsetAccept)),
         ("parse_cache_control_header[response]", cc_resp, lambda v: isinstance(v, DS.ResponseCacheControl)),
         ("parse_cache_control_header[request]", cc_req, lambda v: isinstance(v, DS.RequestCacheControl)),
@@ -398,6 +400,69 @@ def concurrent_requests(rec, W, rng, nthreads=8, per_thread=160):
         rec.violation(mech_key("C07", e).replace("C07/", "C07/concurrent:"), f"Request.{a} with Host {host!r} on one of {nthreads} threads: {e!r}", {"target": f"Request.{a}", "value": host, "threads": nthreads}, monitor="schedule-stress")
 
 
+COLD_START = """
+import sys, threading, json
+sys.setswitchinterval(1e-6)
+from werkzeug.wrappers import Request
+from werkzeug.exceptions import HTTPException
+N = 12
+barrier = threading.Barrier(N)
+bad = []
+ATTRS = ["url", "base_url", "host_url", "root_url", "host", "args", "cookies", "accept_mimetypes", "accept_languages", "authorization", "if_none_match", "range",
+         "cache_control", "if_modified_since", "mimetype_params", "full_path", "user_agent"]
+def work(i):
+    env = {"REQUEST_METHOD": "GET", "wsgi.url_scheme": "http", "SERVER_NAME": "srv", "SERVER_PORT": "80", "PATH_INFO": "/p" + chr(0xc3) + chr(0xa9) + "/%41",
+           "SCRIPT_NAME": "/r", "QUERY_STRING": "a=%C3%A9&b=1", "HTTP_HOST": "t%d.ex" % i + chr(0xe4) + "mple.org", "HTTP_COOKIE": "k=v; x=abc",
+           "HTTP_ACCEPT": "text/html;q=0.5, */*", "HTTP_ACCEPT_LANGUAGE": "de-AT, en;q=0.5", "HTTP_AUTHORIZATION": "Basic dTpw",
+           "HTTP_IF_NONE_MATCH": "W/" + chr(34) + "x" + chr(34), "HTTP_RANGE": "bytes=0-5", "HTTP_CACHE_CONTROL": "max-age=5",
+           "HTTP_IF_MODIFIED_SINCE": "Thu, 01 Jan 2026 00:00:00 GMT", "CONTENT_TYPE": "text/plain; charset=utf-8"}
+    rq = Request(env)
+    barrier.wait()
+    for a in ATTRS[i % len(ATTRS):] + ATTRS[:i % len(ATTRS)]:
+        try:
+            v = getattr(rq, a)
+            if a.startswith("accept"):
+                v.best_match({"accept_mimetypes": ["text/html", "text/plain"], "accept_languages": ["de", "en"]}[a])
+        except HTTPException:
+            pass
+        except Exception as e:
+            bad.append([a, type(e).__name__, str(e)[:120]])
+ts = [threading.Thread(target=work, args=(i,)) for i in range(N)]
+[t.start() for t in ts]
+[t.join(60) for t in ts]
+print(json.dumps(bad[:5]))
+"""
+
+
+def cold_start_concurrency(rec, trials):
+    """Schedule: the first requests of a freshly started process arrive on several threads at once (whatever werkzeug
+    prepares lazily on first use is prepared under their feet).  Each trial is a fresh interpreter: twelve threads
+    release together and read every lazily parsed attribute of their own request."""
+    import json as _json
+    import subprocess
+    import sys as _sys
+
+    env = dict(os.environ, PYTHONPATH=os.environ.get("VERIF_SRC", "/repo/src"), PYTHONHASHSEED="0")
+    for trial in range(trials):
+        rec.case()
+        rec.nontrivial(("cold-start", trial))
+        try:
+            cp = subprocess.run([_sys.executable, "-c", COLD_START], capture_output=True, text=True, timeout=120, env=env)
+        except subprocess.TimeoutExpired:
+            rec.observe("cold_start_trials_timed_out")
+            continue
+        if cp.returncode != 0:
+            rec.observe("cold_start_trials_failed_to_run")
+            rec.note(f"cold start trial failed to run: {cp.stderr[-300:]}")
+            continue
+        rec.observe("cold_start_trials")
+        bad = _json.loads(cp.stdout.strip().splitlines()[-1])
+        if bad:
+            a, exn, msg = bad[0]
+            rec.violation(f"C07/cold-start:{exn}@Request.{a}", f"first requests of a fresh process on 12 threads: Request.{a} raised {exn}: {msg}", {"target": f"Request.{a}", "threads": 12}, monitor="schedule-stress")
+            return
+
+
 def run(shard, rec, rng):
     W = world()
     from werkzeug import _internal as IN
@@ -419,6 +484,8 @@ def run(shard, rec, rng):
     rec.observe("request_attributes_enumerated", len(attrs) if shard["index"] == 0 else 0)
     if shard["index"] % 4 == 2:
         concurrent_requests(rec, W, rng)
+    if shard["index"] % 4 == 3:
+        cold_start_concurrency(rec, 6 if shard["_tier"] == "quick" else 25)
     # ---- direct parser calls
     for i in range(cfg["direct"]):
         s = hostile.value(rng, 0, 12)
@@ -440,6 +507,21 @@ def run(shard, rec, rng):
                     rec.violation(f"C07/wrong-type:{name}", f"{name}({s!r}) returned {out[1]!r}"[:400], case, monitor="return-type")
         if i < 2:
             rec.sample({"direct_value": s})
+    # ---- well-formed but adversarial Accept-style headers (ranges with q=0 next to their relatives, repeated ranges,
+    # regional variants, parameters): every negotiation entry point, with offers that exist only as regional variants
+    from . import c17_negotiation as C17
+
+    fam_targets = {"MEDIA": [t for t in targets if "MIMEAccept" in t[0] or t[0].endswith("[Accept]")], "LANG": [t for t in targets if "LanguageAccept" in t[0]]}
+    for i in range(cfg["direct"] // 3):
+        fam = ("MEDIA", "LANG")[i % 2]
+        pool = getattr(C17, fam)
+        hdr = C17.header_of([(rng.choice(pool), rng.choice(C17.QS)) for _ in range(rng.randint(1, 4))])
+        for name, fn, typ in fam_targets[fam]:
+            rec.case()
+            rec.observe("structured_accept_calls")
+            rec.nontrivial(hash((name, hdr)) & 0xFFFFFFFFFFFFFFFF)
+            out = budget.run_with_budget(lambda fn=fn, s=hdr: fn(s))
+            report(rec, W, name, out, {"target": name, "value": hdr})
     # ---- pumped values (termination budget)
     for i in range(cfg["pumped"]):
         k = rng.randrange(3, 13)
